@@ -554,6 +554,228 @@ theorem matrix_full_upper (n : Nat) (ls : List Run) (hok : ∀ l ∈ ls, l.ok n)
   rw [this.1, this.2, hg i j]
   exact ⟨rfl, rfl⟩
 
+/-! ## 7. Blocks are found whatever their order and whatever lies between them -/
+
+/-- a piece of a SINEX file body: either a line outside any block that does not open one (comment,
+`%ENDSNX`, blank line, content or end line of a foreign block …) or a complete block -/
+inductive Seg
+  | noise (line : Str)
+  | block (header : Str) (marker : Str) (params : List Str) (content : List Str) (footer : Str)
+
+def Seg.lines : Seg → List Str
+  | .noise l => [l]
+  | .block h _ _ c f => h :: c ++ [f]
+
+/-- well-formed pieces: a noise line does not start with `+`; a block's title line is `+MARKER params…`,
+none of its content lines starts with `-` or `+`, its last line starts with `-` -/
+def Seg.wf : Seg → Prop
+  | .noise l => startsWith ['+'] l = false
+  | .block h mk ps c f =>
+      startsWith ['+'] h = true ∧ split (strip (h.drop 1)) = mk :: ps ∧
+      (∀ l ∈ c, startsWith ['-'] l = false ∧ startsWith ['+'] l = false) ∧ startsWith ['-'] f = true
+
+def body (segs : List Seg) : List Str := segs.flatMap Seg.lines
+
+/-- the data lines of a block: the ones that start with a blank (comment lines `*…` are dropped) -/
+def dataLines (c : List Str) : List Str := c.filter (startsWith [' '])
+
+/-- what `parse_blocks` must deliver: the first block of each wanted marker, in file order -/
+def expected : List String → List Seg → List RawBlock
+  | _, [] => []
+  | w, .noise _ :: rest => expected w rest
+  | w, .block _ mk ps c _ :: rest =>
+    if w.contains (asString mk) then ⟨asString mk, ps, dataLines c⟩ :: expected (w.erase (asString mk)) rest
+    else expected w rest
+
+theorem expected_nil (segs : List Seg) : expected [] segs = [] := by
+  induction segs with
+  | nil => rfl
+  | cons s rest ih => cases s <;> simp [expected, ih]
+
+theorem scan_nil_wanted (ls : List Str) : scan ls [] .search = some [] := by
+  cases ls <;> simp [scan]
+
+/-- inside a wanted block: collect the blank-led lines up to the first line starting with `-` -/
+theorem scan_collect (c : List Str) (f : Str) (tail : List Str) (w : List String) (m : String) (p : List Str) :
+    ∀ acc : List Str, (∀ l ∈ c, startsWith ['-'] l = false) → startsWith ['-'] f = true →
+      scan (c ++ f :: tail) w (.collect m p acc) =
+        (scan tail (w.erase m) .search).map (⟨m, p, acc.reverse ++ dataLines c⟩ :: ·) := by
+  induction c with
+  | nil =>
+    intro acc _ hf
+    simp [scan, hf, dataLines]
+  | cons l c ih =>
+    intro acc hc hf
+    have hl : startsWith ['-'] l = false := hc l (by simp)
+    have hc' : ∀ l' ∈ c, startsWith ['-'] l' = false := fun l' h' => hc l' (by simp [h'])
+    by_cases hb : startsWith [' '] l = true
+    · simp only [List.cons_append, scan, hl, Bool.false_eq_true, if_false, hb, if_true]
+      rw [ih (l :: acc) hc' hf]
+      simp [dataLines, List.filter_cons, hb]
+    · have hb' : startsWith [' '] l = false := by simpa using hb
+      simp only [List.cons_append, scan, hl, Bool.false_eq_true, if_false, hb']
+      rw [ih acc hc' hf]
+      simp [dataLines, List.filter_cons, hb']
+
+/-- **parse_blocks finds exactly the wanted blocks**, in file order, ignoring foreign blocks, comment
+lines and anything else between blocks (first occurrence of a marker) -/
+theorem scan_body (segs : List Seg) (hwf : ∀ s ∈ segs, s.wf) :
+    ∀ w : List String, scan (body segs) w .search = some (expected w segs) := by
+  induction segs with
+  | nil => intro w; simp [body, scan, expected]
+  | cons s rest ih =>
+    intro w
+    have hrest : ∀ s' ∈ rest, s'.wf := fun s' h' => hwf s' (by simp [h'])
+    have hs : s.wf := hwf s (by simp)
+    by_cases hw : w = []
+    · subst hw
+      rw [scan_nil_wanted, expected_nil]
+    · have hwe : w.isEmpty = false := by cases w <;> simp_all
+      cases s with
+      | noise l =>
+        simp only [Seg.wf] at hs
+        simp only [body, List.flatMap_cons, Seg.lines, List.singleton_append, scan, hwe, Bool.false_eq_true,
+          if_false, hs, expected]
+        exact ih hrest w
+      | block h mk ps c f =>
+        obtain ⟨hh, hsplit, hc, hf⟩ := hs
+        simp only [body, List.flatMap_cons, Seg.lines, List.cons_append, scan, hwe, Bool.false_eq_true,
+          if_false, hh, if_true, hsplit, expected]
+        by_cases hin : w.contains (asString mk) = true
+        · simp only [hin, if_true]
+          rw [List.append_assoc, List.singleton_append,
+            scan_collect c f _ w (asString mk) ps [] (fun l h' => (hc l h').1) hf]
+          have := ih hrest (w.erase (asString mk))
+          simp only [body] at this
+          rw [this]
+          simp
+        · have hin' : w.contains (asString mk) = false := by simpa using hin
+          simp only [hin', Bool.false_eq_true, if_false]
+          -- a foreign block: its content and end line are skipped one by one
+          have skip : ∀ (ls : List Str), (∀ l ∈ ls, startsWith ['+'] l = false) → ∀ tl,
+              scan (ls ++ tl) w .search = scan tl w .search := by
+            intro ls
+            induction ls with
+            | nil => intro _ tl; rfl
+            | cons l ls ihl =>
+              intro hls tl
+              have h1 := hls l (by simp)
+              simp only [List.cons_append, scan, hwe, Bool.false_eq_true, if_false, h1]
+              exact ihl (fun l' h' => hls l' (by simp [h'])) tl
+          have hfplus : startsWith ['+'] f = false := by
+            cases f with
+            | nil => rfl
+            | cons ch r =>
+              have : '-' = ch := by simpa [startsWith, List.isPrefixOf] using hf
+              subst this; rfl
+          rw [List.append_assoc, skip c (fun l h' => (hc l h').2), List.singleton_append]
+          simp only [scan, hwe, Bool.false_eq_true, if_false, hfplus]
+          exact ih hrest w
+
+namespace Midgard.Props.C14
+open Midgard.Sinex Midgard.Text
+
+/-- all blocks of a body, as `parse_blocks` would store them -/
+def blocksOf : List Seg → List RawBlock
+  | [] => []
+  | .noise _ :: rest => blocksOf rest
+  | .block _ mk ps c _ :: rest => ⟨asString mk, ps, dataLines c⟩ :: blocksOf rest
+
+theorem rawOf_cons (x : RawBlock) (xs : List RawBlock) (m : String) :
+    rawOf (x :: xs) m = if x.marker = m then some x else rawOf xs m := by
+  unfold rawOf
+  by_cases h : x.marker = m <;> simp [List.find?_cons, h]
+
+/-- the block delivered for marker `m` is the first block of that marker in the file, if `m` is wanted -/
+theorem rawOf_expected (segs : List Seg) : ∀ (w : List String) (m : String),
+    rawOf (expected w segs) m = if m ∈ w then rawOf (blocksOf segs) m else Option.none := by
+  induction segs with
+  | nil => intro w m; simp [expected, blocksOf, rawOf]
+  | cons s rest ih =>
+    intro w m
+    cases s with
+    | noise l => simp only [expected, blocksOf]; exact ih w m
+    | block h mk ps c f =>
+      simp only [expected, blocksOf]
+      by_cases hin : w.contains (asString mk) = true
+      · have hmem : asString mk ∈ w := by simpa using hin
+        simp only [hin, if_true, rawOf_cons]
+        by_cases hm : asString mk = m
+        · subst hm; simp [hmem]
+        · simp only [hm, if_false]
+          rw [ih (w.erase (asString mk)) m]
+          have : (m ∈ w.erase (asString mk)) ↔ m ∈ w := List.mem_erase_of_ne (Ne.symm hm)
+          simp only [this]
+      · have hin' : w.contains (asString mk) = false := by simpa using hin
+        have hmem : asString mk ∉ w := by simpa using hin'
+        simp only [hin', Bool.false_eq_true, if_false, rawOf_cons]
+        rw [ih w m]
+        by_cases hm : asString mk = m
+        · subst hm; simp [hmem]
+        · simp [hm]
+
+theorem inj_of_nodup_map {α β} (f : α → β) (l : List α) (h : (l.map f).Nodup) :
+    ∀ x ∈ l, ∀ y ∈ l, f x = f y → x = y := by
+  induction l with
+  | nil => intro x hx; simp at hx
+  | cons a l ih =>
+    simp only [List.map_cons, List.nodup_cons, List.mem_map, not_exists, not_and] at h
+    obtain ⟨hna, hnd⟩ := h
+    intro x hx y hy e
+    rcases List.mem_cons.mp hx with rfl | hx'
+    · rcases List.mem_cons.mp hy with rfl | hy'
+      · rfl
+      · exact absurd e.symm (hna y hy')
+    · rcases List.mem_cons.mp hy with rfl | hy'
+      · exact absurd e (hna x hx')
+      · exact ih hnd x hx' y hy' e
+
+theorem blocksOf_perm {a b : List Seg} (h : a.Perm b) : (blocksOf a).Perm (blocksOf b) := by
+  induction h with
+  | nil => exact List.Perm.refl _
+  | cons x _ ih => cases x <;> simp [blocksOf, ih]
+  | swap x y l =>
+    cases x <;> cases y <;> simp [blocksOf]
+    exact List.Perm.swap _ _ _
+  | trans _ _ ih1 ih2 => exact ih1.trans ih2
+
+theorem rawOf_perm {a b : List RawBlock} (h : a.Perm b) (hnd : (a.map (·.marker)).Nodup) (m : String) :
+    rawOf a m = rawOf b m := by
+  unfold rawOf
+  have hndb : (b.map (·.marker)).Nodup := (h.map _).nodup_iff.mp hnd
+  cases ha : a.find? (·.marker = m) with
+  | none =>
+    have hb : b.find? (·.marker = m) = Option.none := by
+      rw [List.find?_eq_none] at ha ⊢
+      intro x hx; exact ha x (h.mem_iff.mpr hx)
+    rw [hb]
+  | some x =>
+    have hx := List.find?_some ha
+    have hxa := List.mem_of_find?_eq_some ha
+    have hxb : x ∈ b := h.mem_iff.mp hxa
+    cases hb : b.find? (·.marker = m) with
+    | none =>
+      rw [List.find?_eq_none] at hb
+      exact absurd hx (hb x hxb)
+    | some y =>
+      have hy := List.find?_some hb
+      have hyb := List.mem_of_find?_eq_some hb
+      have hmark : x.marker = y.marker := by
+        simp only [decide_eq_true_eq] at hx hy; rw [hx, hy]
+      have := inj_of_nodup_map (·.marker) b hndb x hxb y hyb hmark
+      rw [this]
+
+/-- **order_independent**: the raw block delivered for any marker is the same for every arrangement of
+the same pieces (blocks in any order, foreign blocks and comment lines anywhere between them),
+provided each marker occurs once -/
+theorem order_independent (segs segs' : List Seg) (hperm : segs.Perm segs')
+    (hwf : ∀ s ∈ segs, s.wf) (hdistinct : ((blocksOf segs).map (·.marker)).Nodup) (w : List String) (m : String) :
+    (scan (body segs') w .search).map (rawOf · m) = (scan (body segs) w .search).map (rawOf · m) := by
+  have hwf' : ∀ s ∈ segs', s.wf := fun s h => hwf s (hperm.mem_iff.mpr h)
+  rw [scan_body segs hwf w, scan_body segs' hwf' w]
+  simp only [Option.map_some, rawOf_expected]
+  rw [rawOf_perm (blocksOf_perm hperm) hdistinct m]
+
 end Midgard.Props.C14
 
 #print axioms Midgard.Props.C14.starts_sorted
@@ -591,3 +813,13 @@ end Midgard.Props.C14
 #print axioms Midgard.Props.C14.fillMatrix_eq
 #print axioms Midgard.Props.C14.matrix_full_lower
 #print axioms Midgard.Props.C14.matrix_full_upper
+#print axioms Midgard.Props.C14.expected_nil
+#print axioms Midgard.Props.C14.scan_nil_wanted
+#print axioms Midgard.Props.C14.scan_collect
+#print axioms Midgard.Props.C14.scan_body
+#print axioms Midgard.Props.C14.rawOf_cons
+#print axioms Midgard.Props.C14.rawOf_expected
+#print axioms Midgard.Props.C14.inj_of_nodup_map
+#print axioms Midgard.Props.C14.blocksOf_perm
+#print axioms Midgard.Props.C14.rawOf_perm
+#print axioms Midgard.Props.C14.order_independent
